@@ -147,8 +147,9 @@ func (p *Proxy) listen() {
 		close(p.close)
 	}
 	p.listener.Close()
+	// The parent is kept: the threads that serve the accepted connections still
+	// use it (prefix, keys, talk) while they wind down.
 	p.state.Set(stateClosed)
-	p.parent = nil
 	close(p.ch)
 }
 func (p *Proxy) clientLock() {
